@@ -12,6 +12,24 @@
 //! op result, every captured version (chunk map with levels + time index),
 //! list_chunks from a FRESH client at quiescence.
 //!
+//! Fault leg: schedule entries may carry Action::FailBefore / FailAfter (that one
+//! request of that client fails with a transport error before / after taking
+//! effect), interleaved with the other clients' requests.  The theorems of
+//! Properties/C02.v do not speak about fault steps (CasProto has none): the
+//! model side of the comparison then runs Model/CasFault.v (harness-only copy of
+//! the machine with fault labels) and the oracle judges the implementation.
+//! Judgement of faults, from the property text: "reports success => reflected"
+//! and "reports failure => no effect" are about the outcomes the API defines
+//! (Ok, TooManyRetries, Metadata errors); the property quantifies over
+//! interleavings, not storage faults.  A mutation that returns a TRANSPORT error
+//! has an indeterminate outcome (lost acknowledgement): it counts as "took
+//! effect" iff its own conditional PUT was applied (only possible for a
+//! FailAfter PUT).  So under faults: every Ok mutation wrote exactly one version
+//! through its own PUT; every definite failure and every fault that hit before
+//! effect wrote nothing; the versions are the effective mutations (Ok ones +
+//! applied lost-ack ones) applied one after the other; every version is
+//! well-formed; "fault" results only for mutations actually hit by a fault.
+//!
 //! Oracle (independent of the model): every captured version is well-formed
 //! (every time-index path is in the chunk map; every chunk is in all hour
 //! buckets of its interval); #versions = #Ok results; the chunk map of the
@@ -24,19 +42,22 @@ use cardinalsin::metadata::{
     MetadataCatalog, MetadataClient, ObjectStoreMetadataClient, ObjectStoreMetadataConfig,
 };
 use cardinalsin::Error;
-use csv_cascommon::{all_sequences, drive};
-use csv_common::sched::Hub;
-use csv_common::{ddmin, Args, Model, Report, Rng};
+use csv_cascommon::{all_sequences, ddmin_capped, drive_faults, parse_step_token, step_token};
+use csv_common::sched::{Action, Hub};
+use csv_common::{Args, Model, Report, Rng};
 use futures::future::LocalBoxFuture;
 use futures::FutureExt;
 use object_store::memory::InMemory;
 use object_store::ObjectStore;
 use serde_json::json;
 use std::collections::BTreeMap;
+use std::panic::AssertUnwindSafe;
 use std::sync::Arc;
 
 const H: i64 = 3_600_000_000_000;
 const MAX_CAS_RETRIES: usize = 5;
+const MAX_FINDINGS: usize = 10;
+const SHRINK_BUDGET: usize = 120;
 
 #[derive(Clone, Debug, PartialEq)]
 enum Op {
@@ -48,7 +69,7 @@ enum Op {
 #[derive(Clone, Debug, PartialEq)]
 struct Case {
     progs: Vec<Vec<Op>>,
-    sched: Vec<usize>,
+    sched: Vec<(usize, Action)>,
 }
 
 fn pname(p: u32) -> String {
@@ -81,9 +102,13 @@ fn parse_op(t: &str) -> Op {
     }
 }
 
-fn encode(c: &Case, executed: &[usize]) -> String {
+fn encode(c: &Case, executed: &[(usize, Action)]) -> String {
     let progs = c.progs.iter().map(|p| p.iter().map(op_text).collect::<Vec<_>>().join(";")).collect::<Vec<_>>().join("/");
-    format!("S|progs={}|sched={}", progs, executed.iter().map(|x| x.to_string()).collect::<Vec<_>>().join(","))
+    format!("S|progs={}|sched={}", progs, executed.iter().map(|(c, a)| step_token(*c, *a)).collect::<Vec<_>>().join(","))
+}
+
+fn p(cs: &[usize]) -> Vec<(usize, Action)> {
+    cs.iter().map(|c| (*c, Action::Proceed)).collect()
 }
 
 fn decode(line: &str) -> Case {
@@ -93,7 +118,7 @@ fn decode(line: &str) -> Case {
         if let Some(v) = f.strip_prefix("progs=") {
             progs = v.split('/').map(|p| p.split(';').filter(|x| !x.trim().is_empty()).map(parse_op).collect()).collect();
         } else if let Some(v) = f.strip_prefix("sched=") {
-            sched = v.split(',').filter(|x| !x.is_empty()).map(|x| x.parse().unwrap()).collect();
+            sched = v.split(',').filter(|x| !x.is_empty()).map(parse_step_token).collect();
         }
     }
     Case { progs, sched }
@@ -103,6 +128,9 @@ fn res_string(r: &cardinalsin::Result<()>) -> String {
     match r {
         Ok(()) => "ok".into(),
         Err(Error::TooManyRetries) => "retries".into(),
+        // transport errors: a failing GET surfaces as Metadata("Failed to load ..."), a failing PUT as ObjectStore
+        Err(Error::ObjectStore(_)) => "fault".into(),
+        Err(Error::Metadata(m)) if m.starts_with("Failed to load") => "fault".into(),
         Err(Error::Metadata(_)) => "err".into(),
         Err(Error::Conflict) => "conflict".into(),
         Err(e) => format!("other({})", e).replace(['|', ';', '/', ',', '#'], "_"),
@@ -204,17 +232,29 @@ fn permutations(n: usize) -> Vec<Vec<usize>> {
 
 struct ImplOut {
     line: String,
-    executed: Vec<usize>,
+    executed: Vec<(usize, Action)>,
     bad: Vec<String>,
     conflicts: usize,
     retries: usize,
     create_conflicts: usize,
+    faults: usize,
 }
 
+/// Runs one case; a panic of the implementation or of this harness is caught
+/// and reported as an oracle failure of that case.
 fn run_impl(c: &Case) -> ImplOut {
-    let rt = tokio::runtime::Builder::new_current_thread().enable_all().start_paused(true).build().unwrap();
-    let local_set = tokio::task::LocalSet::new();
-    rt.block_on(local_set.run_until(run_impl_async(c)))
+    let r = std::panic::catch_unwind(AssertUnwindSafe(|| {
+        let rt = tokio::runtime::Builder::new_current_thread().enable_all().start_paused(true).build().unwrap();
+        let local_set = tokio::task::LocalSet::new();
+        rt.block_on(local_set.run_until(run_impl_async(c)))
+    }));
+    match r {
+        Ok(o) => o,
+        Err(e) => {
+            let msg = e.downcast_ref::<&str>().map(|s| s.to_string()).or_else(|| e.downcast_ref::<String>().cloned()).unwrap_or_else(|| "panic".into());
+            ImplOut { line: "PANIC".into(), executed: c.sched.clone(), bad: vec![format!("panic while running the case: {}", msg)], conflicts: 0, retries: 0, create_conflicts: 0, faults: 0 }
+        }
+    }
 }
 
 async fn run_impl_async(c: &Case) -> ImplOut {
@@ -255,12 +295,15 @@ async fn run_impl_async(c: &Case) -> ImplOut {
         );
     }
     let nops: Vec<usize> = c.progs.iter().map(|p| p.len()).collect();
-    let run = drive(&hub, tasks, &nops, &c.sched, 1500).await;
+    let run = drive_faults(&hub, tasks, &nops, &c.sched, 1500).await;
     if let Some(s) = &run.stuck {
         bad.push(format!("run did not complete: {}", s));
     }
     let conflicts = run.kinds.iter().filter(|k| k.ends_with('-')).count();
     let create_conflicts = run.kinds.iter().filter(|k| k.as_str() == "Pc-").count();
+    let faults = run.actions.iter().filter(|a| **a != Action::Proceed).count();
+    let op_of_step = run.op_of_step();
+    let executed: Vec<(usize, Action)> = run.executed.iter().cloned().zip(run.actions.iter().cloned()).collect();
     for p in &run.paths {
         if !(p.ends_with("catalog.json") || p.ends_with("/metadata.json") || p.ends_with("time-index.json")) {
             bad.push(format!("unexpected object touched by a catalog mutation: {}", p));
@@ -295,15 +338,45 @@ async fn run_impl_async(c: &Case) -> ImplOut {
     for (i, v) in versions.iter().enumerate() {
         bad.extend(wf_failures(v, i));
     }
-    // successful ops in the order in which they finished (= commit order)
+    // who wrote each version: the applied PUTs on catalog.json, in order
+    let writers: Vec<(usize, usize, usize)> = run
+        .log
+        .iter()
+        .enumerate()
+        .filter(|(_, e)| e.info.verb == "PUT" && e.ok && e.info.path.ends_with("catalog.json"))
+        .map(|(s, e)| (e.info.client, op_of_step.get(s).cloned().unwrap_or(usize::MAX), s))
+        .collect();
+    if writers.len() != raw.len() {
+        bad.push(format!("{} versions recorded but {} applied PUTs logged", raw.len(), writers.len()));
+    }
+    let result_of = |k: usize, i: usize| run.results.get(k).and_then(|r| r.get(i)).cloned().unwrap_or_else(|| "missing".into());
+    let op_faulted = |k: usize, i: usize| (0..run.executed.len()).any(|s| run.executed[s] == k && op_of_step[s] == i && run.actions[s] != Action::Proceed);
+    // effective mutations = the writers, in commit order; each must have reported Ok, or a transport
+    // error although its PUT was applied (lost acknowledgement: indeterminate outcome)
     let mut ok_ops: Vec<Op> = Vec::new();
+    for (j, (k, i, s)) in writers.iter().enumerate() {
+        match c.progs.get(*k).and_then(|p| p.get(*i)) {
+            Some(o) => {
+                ok_ops.push(o.clone());
+                let r = result_of(*k, *i);
+                let lost_ack = r == "fault" && run.actions[*s] == Action::FailAfter;
+                if r != "ok" && !lost_ack {
+                    bad.push(format!("client {} op {} ({}) returned {} but its PUT wrote version {} of catalog.json: a mutation that reported failure had an effect", k, i, op_text(o), r, j));
+                }
+            }
+            None => bad.push(format!("version {} written by an unknown operation", j)),
+        }
+    }
     let mut n_ok = 0usize;
     for (_, k, i) in &run.finished {
         let r = &run.results[*k][*i];
         match r.as_str() {
             "ok" => {
-                ok_ops.push(c.progs[*k][*i].clone());
                 n_ok += 1;
+                let own = writers.iter().filter(|(wk, wi, _)| wk == k && wi == i).count();
+                if own != 1 {
+                    bad.push(format!("client {} op {} ({}) reported success but {} versions were written by its own PUT: a successful mutation is not reflected", k, i, op_text(&c.progs[*k][*i]), own));
+                }
             }
             "err" => {
                 if !matches!(c.progs[*k][*i], Op::C { .. }) {
@@ -311,10 +384,15 @@ async fn run_impl_async(c: &Case) -> ImplOut {
                 }
             }
             "retries" => {}
+            "fault" => {
+                if !op_faulted(*k, *i) {
+                    bad.push(format!("client {} op {} returned a transport error although no fault was injected into it", k, i));
+                }
+            }
             other => bad.push(format!("client {} op {} ended with {}", k, i, other)),
         }
     }
-    if n_ok != versions.len() {
+    if faults == 0 && n_ok != versions.len() {
         bad.push(format!("{} mutations reported success but {} versions of catalog.json were written: a success was lost or a failure had an effect", n_ok, versions.len()));
     }
     // TooManyRetries only after MAX_CAS_RETRIES conflicting PUTs of that very op
@@ -370,7 +448,7 @@ async fn run_impl_async(c: &Case) -> ImplOut {
             }
         }
         if !found {
-            bad.push(format!("the final catalog {:?} equals no one-at-a-time ordering of the successful mutations [{}]", final_map, ok_ops.iter().map(op_text).collect::<Vec<_>>().join("; ")));
+            bad.push(format!("the final catalog {:?} equals no one-at-a-time ordering of the effective (successful / applied) mutations [{}]", final_map, ok_ops.iter().map(op_text).collect::<Vec<_>>().join("; ")));
         } else {
             bad.push("the versions of catalog.json are not the successful mutations applied one after the other in commit order (the final catalog matches another ordering)".to_string());
         }
@@ -381,7 +459,7 @@ async fn run_impl_async(c: &Case) -> ImplOut {
     let vers = versions.iter().map(show_version).collect::<Vec<_>>().join("#");
     let retries = run.results.iter().flatten().filter(|r| r.as_str() == "retries").count();
     let line = format!("steps={}|res={}|vers={}|final={}", steps, res, vers, final_list);
-    ImplOut { line, executed: run.executed, bad, conflicts, retries, create_conflicts }
+    ImplOut { line, executed, bad, conflicts, retries, create_conflicts, faults }
 }
 
 // ---------------------------------------------------------- generators ----
@@ -417,11 +495,11 @@ fn gen_op(rng: &mut Rng, npaths: u32, uniq: &mut u64) -> Op {
     }
 }
 
-fn gen_case(rng: &mut Rng, report: &mut Report) -> Case {
+fn gen_case(rng: &mut Rng, report: &mut Report, with_faults: bool) -> Case {
     let n = rng.range_usize(2, 4);
     let npaths = rng.range_usize(2, 4) as u32;
     let mut uniq = 0u64;
-    if rng.chance(1, 8) {
+    if !with_faults && rng.chance(1, 8) {
         // conflict exhaustion: client 1 is starved by client 0's commits
         report.bump("family.starvation");
         let writer_ops = rng.range_usize(5, 6);
@@ -454,7 +532,7 @@ fn gen_case(rng: &mut Rng, report: &mut Report) -> Case {
             let i = rng.range_usize(0, sched.len() - 1);
             sched[i] = rng.below(2) as usize;
         }
-        return Case { progs, sched };
+        return Case { progs, sched: p(&sched) };
     }
     let mut progs = Vec::new();
     for _ in 0..n {
@@ -463,7 +541,7 @@ fn gen_case(rng: &mut Rng, report: &mut Report) -> Case {
     }
     let total: usize = progs.iter().map(|p: &Vec<Op>| p.len()).sum();
     let len = rng.range_usize(0, total * 6);
-    let sched: Vec<usize> = match rng.below(4) {
+    let clients: Vec<usize> = match rng.below(4) {
         0 => (0..len).map(|i| i % n).collect(),
         1 => {
             let mut s = Vec::new();
@@ -477,6 +555,13 @@ fn gen_case(rng: &mut Rng, report: &mut Report) -> Case {
         }
         _ => (0..len).map(|_| rng.below(n as u64) as usize).collect(),
     };
+    let sched = clients
+        .into_iter()
+        .map(|c| {
+            let a = if with_faults && rng.chance(1, 6) { if rng.chance(1, 2) { Action::FailBefore } else { Action::FailAfter } } else { Action::Proceed };
+            (c, a)
+        })
+        .collect();
     Case { progs, sched }
 }
 
@@ -488,25 +573,40 @@ fn r(p: u32, min: i64, max: i64) -> Op {
 fn corpus() -> Vec<Case> {
     let mut v = Vec::new();
     // first-write creation race: GET x3, GET x3, PUT(create), PUT(create, conflict), reload, PUT(update)
-    v.push(Case { progs: vec![vec![r(1, 0, 10)], vec![r(2, 5, 2 * H)]], sched: vec![0, 1, 0, 1, 0, 1, 0, 1, 1, 1] });
+    v.push(Case { progs: vec![vec![r(1, 0, 10)], vec![r(2, 5, 2 * H)]], sched: p(&[0, 1, 0, 1, 0, 1, 0, 1, 1, 1]) });
     // lost-update shape GET/GET/PUT/PUT on an existing catalog
-    v.push(Case { progs: vec![vec![r(1, 0, 10), r(2, H, H + 5)], vec![r(3, -5, 5)]], sched: vec![0, 0, 0, 0, 0, 1, 0, 1, 1, 1] });
+    v.push(Case { progs: vec![vec![r(1, 0, 10), r(2, H, H + 5)], vec![r(3, -5, 5)]], sched: p(&[0, 0, 0, 0, 0, 1, 0, 1, 1, 1]) });
     // delete racing a re-registration of the same path; completion whose target is registered concurrently
-    v.push(Case { progs: vec![vec![r(1, 0, 10), Op::D { p: 1 }], vec![r(1, 3 * H, 3 * H + 1)], vec![Op::C { tgt: 1, srcs: vec![2] }]], sched: vec![0, 0, 0, 0, 0, 1, 2, 1, 0, 2, 2, 2] });
+    v.push(Case { progs: vec![vec![r(1, 0, 10), Op::D { p: 1 }], vec![r(1, 3 * H, 3 * H + 1)], vec![Op::C { tgt: 1, srcs: vec![2] }]], sched: p(&[0, 0, 0, 0, 0, 1, 2, 1, 0, 2, 2, 2]) });
     // conflict exhaustion (the Coq example c02_conflict_exhaustion)
     let mut s = vec![0, 0, 0, 0];
     for _ in 0..5 {
         s.extend([1, 0, 0, 1]);
     }
-    v.push(Case { progs: vec![(1..=6).map(|i| r(i, 0, 10)).collect(), vec![Op::D { p: 9 }]], sched: s });
+    v.push(Case { progs: vec![(1..=6).map(|i| r(i, 0, 10)).collect(), vec![Op::D { p: 9 }]], sched: p(&s) });
     // ... and the same with the victim's first attempt being a Create
     let mut s = vec![1, 1, 1, 0, 0, 0, 0, 1];
     for _ in 0..4 {
         s.extend([1, 0, 0, 1]);
     }
-    v.push(Case { progs: vec![(1..=6).map(|i| r(i, 0, 10)).collect(), vec![r(7, 0, 1)]], sched: s });
+    v.push(Case { progs: vec![(1..=6).map(|i| r(i, 0, 10)).collect(), vec![r(7, 0, 1)]], sched: p(&s) });
     // compaction completion: sources removed, level raised; a racing delete of the target
-    v.push(Case { progs: vec![vec![r(1, 0, 10), r(2, 20, 30), r(3, 0, 30), Op::C { tgt: 3, srcs: vec![1, 2] }], vec![Op::D { p: 3 }]], sched: vec![0, 0, 0, 0, 0, 0, 0, 0, 0, 1, 0, 1, 0, 0] });
+    v.push(Case { progs: vec![vec![r(1, 0, 10), r(2, 20, 30), r(3, 0, 30), Op::C { tgt: 3, srcs: vec![1, 2] }], vec![Op::D { p: 3 }]], sched: p(&[0, 0, 0, 0, 0, 0, 0, 0, 0, 1, 0, 1, 0, 0]) });
+    // faults on an existing catalog {1}: client 0's PUT fails (not applied / applied with the ack lost)
+    // while client 1's mutation on the same base lands; then both go on
+    for a in [Action::FailBefore, Action::FailAfter] {
+        let mut sched = p(&[0, 0, 0, 0, 0, 1]);
+        sched.push((0, a));
+        sched.extend(p(&[1, 0, 1, 0, 1]));
+        v.push(Case { progs: vec![vec![r(1, 0, 10), r(2, H, H + 5), Op::D { p: 1 }], vec![r(3, -5, 5)]], sched });
+        // the creation itself is hit
+        let mut sched = p(&[0, 1, 0, 1, 0, 1]);
+        sched.push((0, a));
+        sched.extend(p(&[1, 1, 1, 0]));
+        v.push(Case { progs: vec![vec![r(1, 0, 10), r(4, 0, 1)], vec![r(2, 5, 2 * H)]], sched });
+    }
+    // failing GETs: of catalog.json, of a legacy file during the first load, of a reload after a conflict
+    v.push(Case { progs: vec![vec![r(1, 0, 10), r(2, 0, 1)], vec![r(3, 0, 1)]], sched: vec![(0, Action::FailBefore), (1, Action::Proceed), (1, Action::FailAfter), (0, Action::Proceed)] });
     v
 }
 
@@ -519,7 +619,7 @@ fn exhaustive_cases() -> Vec<Case> {
     for a in &first {
         for b in &second {
             for s in &seqs10 {
-                v.push(Case { progs: vec![vec![a.clone()], vec![b.clone()]], sched: s.clone() });
+                v.push(Case { progs: vec![vec![a.clone()], vec![b.clone()]], sched: p(s) });
             }
         }
     }
@@ -531,20 +631,49 @@ fn exhaustive_cases() -> Vec<Case> {
             for s in &seqs6 {
                 let mut sched = vec![0, 0, 0, 0, 0, 0];
                 sched.extend(s.iter().cloned());
-                v.push(Case { progs: vec![vec![r(1, 0, 10), r(2, H - 1, H), a.clone()], vec![b.clone()]], sched });
+                v.push(Case { progs: vec![vec![r(1, 0, 10), r(2, H - 1, H), a.clone()], vec![b.clone()]], sched: p(&sched) });
             }
         }
     }
     v
 }
 
-fn check_case(c: &Case, origin: &str, model: &mut Model, report: &mut Report) {
+/// one injected fault at every position x {fail-before, fail-after} of every interleaving of two
+/// mutations on an existing catalog {1, 2}
+fn exhaustive_fault_cases() -> Vec<Case> {
+    let mut v = Vec::new();
+    let ops: Vec<Op> = vec![r(3, 0, H), Op::D { p: 1 }, Op::C { tgt: 2, srcs: vec![1] }];
+    let seqs6 = all_sequences(2, 6);
+    for a in &ops {
+        for b in &ops {
+            for s in &seqs6 {
+                for pos in 0..s.len() {
+                    for act in [Action::FailBefore, Action::FailAfter] {
+                        let mut sched = p(&[0, 0, 0, 0, 0, 0]);
+                        let mut t = p(s);
+                        t[pos].1 = act;
+                        sched.extend(t);
+                        v.push(Case { progs: vec![vec![r(1, 0, 10), r(2, H - 1, H), a.clone(), r(4, 5, 6)], vec![b.clone(), Op::D { p: 4 }]], sched });
+                    }
+                }
+            }
+        }
+    }
+    v
+}
+
+fn findings(report: &Report) -> usize {
+    report.disagreements.len() + report.oracle_violations.len()
+}
+
+fn check_case(c: &Case, origin: &str, model: &mut Model, report: &mut Report, out_path: &str) {
     let out = run_impl(c);
     report.impl_runs += 1;
     let line = encode(c, &out.executed);
-    report.case(if out.conflicts > 0 { Some(&line) } else { None });
+    report.case(if out.conflicts > 0 || out.faults > 0 { Some(&line) } else { None });
     report.bump(&format!("origin.{}", origin));
     report.bump(&format!("conflicts.{}", out.conflicts.min(6)));
+    report.bump(&format!("faults.{}", out.faults.min(4)));
     report.bump(&format!("clients.{}", c.progs.len()));
     if out.retries > 0 {
         report.bump("result.too_many_retries");
@@ -552,37 +681,39 @@ fn check_case(c: &Case, origin: &str, model: &mut Model, report: &mut Report) {
     if out.create_conflicts > 0 {
         report.bump("step.create_conflict");
     }
-    if out.line.contains("err") {
-        report.bump("result.target_not_found");
+    for (tag, key) in [("err", "result.target_not_found"), ("fault", "result.transport_error"), ("!", "step.put_applied_but_error")] {
+        if out.line.contains(tag) {
+            report.bump(key);
+        }
     }
     let (differs, model_out) = model.differs(&line, &out.line);
     report.sample(json!({"case": line, "impl": out.line, "model": model_out}));
+    let mk = |sched: &[(usize, Action)]| Case { progs: c.progs.clone(), sched: sched.to_vec() };
     if differs {
-        let shrunk = ddmin(&c.sched, &mut |cand: &[usize]| {
-            let cc = Case { progs: c.progs.clone(), sched: cand.to_vec() };
+        let shrunk = ddmin_capped(&c.sched, SHRINK_BUDGET, &mut |cand: &[(usize, Action)]| {
+            let cc = mk(cand);
             let o = run_impl(&cc);
             model.differs(&encode(&cc, &o.executed), &o.line).0
         });
-        let cc = Case { progs: c.progs.clone(), sched: shrunk };
+        let cc = mk(&shrunk);
         let o = run_impl(&cc);
         let sl = encode(&cc, &o.executed);
         let sm = model.ask(&sl);
         report.disagreement(json!({
-            "correspondence": "CAS machine instance Model/CatalogCas.v (cat_step over s3_apply) vs racing ObjectStoreMetadataClient register_chunk / delete_chunk / complete_compaction",
+            "correspondence": "CAS machine instance Model/CatalogCas.v (cat_step / cat_fstep over s3_apply) vs racing ObjectStoreMetadataClient register_chunk / delete_chunk / complete_compaction",
             "case": line, "impl": out.line, "model": model_out,
             "shrunk": sl, "shrunk_impl": o.line, "shrunk_model": sm,
             "oracle_failed": !out.bad.is_empty() || !o.bad.is_empty(),
         }));
+        report.write(out_path);
     }
     if !out.bad.is_empty() {
-        let shrunk = ddmin(&c.sched, &mut |cand: &[usize]| {
-            let cc = Case { progs: c.progs.clone(), sched: cand.to_vec() };
-            !run_impl(&cc).bad.is_empty()
-        });
-        let cc = Case { progs: c.progs.clone(), sched: shrunk };
+        let shrunk = ddmin_capped(&c.sched, SHRINK_BUDGET, &mut |cand: &[(usize, Action)]| !run_impl(&mk(cand)).bad.is_empty());
+        let cc = mk(&shrunk);
         let o = run_impl(&cc);
         let (what, cl) = if o.bad.is_empty() { (out.bad.join("; "), line.clone()) } else { (o.bad.join("; "), encode(&cc, &o.executed)) };
         report.oracle_violation("", &what, json!({"case": cl, "original": line}));
+        report.write(out_path);
     }
 }
 
@@ -604,24 +735,39 @@ fn main() {
         std::process::exit(if out.bad.is_empty() && (model.is_null() || out.line == m) { 0 } else { 1 });
     }
 
+    let out_path = args.out.clone();
     let mut rng = Rng::new(args.seed);
+    let mut cases: Vec<(&str, Case)> = Vec::new();
     for c in corpus() {
-        check_case(&c, "corpus", &mut model, &mut report);
+        cases.push(("corpus", c));
     }
-    let ex = exhaustive_cases();
-    // quick: a seeded third of the exhaustive families; thorough: all of it
-    for c in ex.iter() {
+    // quick: a seeded third of the exhaustive families (a sixth of the one-fault sweep); thorough: all of it
+    for c in exhaustive_cases() {
         if args.thorough() || rng.chance(1, 3) {
-            check_case(c, "exhaustive_2x1", &mut model, &mut report);
+            cases.push(("exhaustive_2x1", c));
         }
     }
-    let n_random = if args.thorough() { 60_000 } else { 700 };
-    for _ in 0..n_random {
+    for c in exhaustive_fault_cases() {
+        if args.thorough() || rng.chance(1, 6) {
+            cases.push(("exhaustive_2x1_one_fault", c));
+        }
+    }
+    let n_random = if args.thorough() { 60_000 } else { 900 };
+    for i in 0..n_random {
         let mut r = rng.fork();
-        let c = gen_case(&mut r, &mut report);
-        check_case(&c, "random", &mut model, &mut report);
+        let faulty = i % 3 == 2;
+        let c = gen_case(&mut r, &mut report, faulty);
+        cases.push((if faulty { "random_faults" } else { "random" }, c));
+    }
+    for (origin, c) in &cases {
+        check_case(c, origin, &mut model, &mut report, &out_path);
+        if findings(&report) >= MAX_FINDINGS {
+            report.notes.push(format!("stopped after {} findings", findings(&report)));
+            break;
+        }
     }
     report.notes.push(format!("model calls: {}", model.calls));
-    report.notes.push("exhaustive families (thorough: complete; quick: a seeded third): creation race 2x1 from the absent catalog over all 1024 schedule prefixes of length 10 x 9 op pairs; 36 op pairs on an existing catalog over all 64 interleavings".into());
-    report.write(&args.out);
+    report.notes.push("exhaustive families (thorough: complete; quick: a seeded third / sixth): creation race 2x1 from the absent catalog over all 1024 schedule prefixes of length 10 x 9 op pairs; 36 op pairs on an existing catalog over all 64 interleavings; one-fault sweep: 9 op pairs x 64 interleavings x 6 positions x {fail-before, fail-after}".into());
+    report.notes.push("fault steps are outside the theorems of Properties/C02.v (CasProto has no fault labels): there the model side is Model/CasFault.v (harness-only copy of the machine) and the oracle judges the implementation directly; a mutation returning a transport error is indeterminate and counts as effective iff its own PUT was applied".into());
+    report.write(&out_path);
 }
